@@ -77,6 +77,10 @@ func TestC12Seq(t *testing.T) {
 			default:
 				off = uint64(rapid.IntRange(0, 45).Draw(t, "block"))*BlockSize + uint64(pick(t, []int{0, 1, 2000, 4090}, "in"))
 			}
+			if rapid.IntRange(0, 9).Draw(t, "farout") == 0 {
+				// the indirect / double-indirect ranges (sparse: costs an index block or two)
+				off = uint64(pick(t, []int{8, 100, 519, 520, 521, 700, 1033}, "farblock"))*BlockSize + uint64(pick(t, []int{0, 1, 2000}, "in"))
+			}
 			cnt := uint32(pick(t, []int{1, 6, 100, 2000, 4096, 4097, 5000}, "cnt"))
 			old := f.Size
 			judge(t, x.Write(LiveRef(f), off, patternData(g.nextTag(), uint64(cnt)), cnt, pick(t, g.Cfg.Stable, "stable")))
@@ -102,6 +106,10 @@ func TestC12Seq(t *testing.T) {
 				sz = f.Size + uint64(pick(t, []int{1, 100, 4096, 5000, 10 * 4096, 50 * 4096}, "grow"))
 			default:
 				sz = f.Size - f.Size%BlockSize + uint64(pick(t, []int{1, 100, 2048, 4095}, "tail"))
+			}
+			if f.Size > 521*BlockSize && rapid.Bool().Draw(t, "cutindind") {
+				// an unaligned cut inside the double-indirect range
+				sz = 520*BlockSize + uint64(rapid.Uint64Range(1, f.Size-520*BlockSize-1).Draw(t, "dindsize"))
 			}
 			old := f.Size
 			judge(t, x.Setattr(LiveRef(f), &sz, false))
